@@ -139,7 +139,7 @@ func c15Gen(rnd *rand.Rand, i int, locs []c15Loc) (c15Case, c15Loc) {
 		if c.State == "hfp" || c.State == "hfp_flip" {
 			c.Cacheable = false
 		}
-		c.Cond = []string{"", "", "inm_match", "inm_nomatch", "ims_match", "ims_nomatch", "range_first", "range_suffix", "range_multi", "if_range", "both_match"}[rnd.Intn(11)]
+		c.Cond = []string{"", "", "inm_match", "inm_nomatch", "ims_match", "ims_nomatch", "range_first", "range_suffix", "range_multi", "if_range", "both_match", "inm_nomatch_ims_match"}[rnd.Intn(12)]
 	}
 	return c, l
 }
@@ -158,6 +158,9 @@ func c15CondHeaders(c c15Case) [][2]string {
 		return [][2]string{{"If-Modified-Since", c15ModTime.Add(-time.Hour).Format(http.TimeFormat)}}
 	case "both_match":
 		return [][2]string{{"If-None-Match", et}, {"If-Modified-Since", lm}}
+	case "inm_nomatch_ims_match":
+		// If-None-Match takes precedence: the entity tag differs, so the full response is due
+		return [][2]string{{"If-None-Match", `"other"`}, {"If-Modified-Since", lm}}
 	case "range_first":
 		return [][2]string{{"Range", "bytes=0-99"}}
 	case "range_suffix":
@@ -391,6 +394,9 @@ func c15(r *hx.Run) {
 		}
 		// the response to A
 		isCond := strings.HasPrefix(c.Cond, "inm") || strings.HasPrefix(c.Cond, "ims") || c.Cond == "both_match"
+		if c.Cond == "inm_nomatch_ims_match" {
+			r.Add("etag_mismatch_with_matching_last_modified", 1)
+		}
 		isRange := strings.HasPrefix(c.Cond, "range") || c.Cond == "if_range"
 		match := c.Cond == "inm_match" || c.Cond == "ims_match" || c.Cond == "both_match"
 		switch {
